@@ -106,33 +106,31 @@ impl<'g> Cx<'g> {
                 Ok((t, et))
             }
             syn::Expr::If(i) => {
+                // the outer variables assigned inside are returned together with the value
                 let m = self.assigned_in_expr(e);
-                if !m.is_empty() {
-                    return self.bail(e.span(), "`if` used as a value must not assign outer variables");
-                }
-                let (d, ty) = self.if_doc(i, &Tail::Value(exp.cloned()), stmts)?;
-                let t = self.fresh();
-                stmts.push(Stmt::Bind(t.clone(), d));
+                self.value_carry.push(m.clone());
+                let r = self.if_doc(i, &Tail::Value(exp.cloned()), stmts);
+                self.value_carry.pop();
+                let (d, ty) = r?;
+                let t = self.bind_carried(&m, d, stmts);
                 Ok((t, ty))
             }
             syn::Expr::Match(mt) => {
                 let m = self.assigned_in_expr(e);
-                if !m.is_empty() {
-                    return self.bail(e.span(), "`match` used as a value must not assign outer variables");
-                }
-                let (d, ty) = self.match_doc(mt, &Tail::Value(exp.cloned()), stmts)?;
-                let t = self.fresh();
-                stmts.push(Stmt::Bind(t.clone(), d));
+                self.value_carry.push(m.clone());
+                let r = self.match_doc(mt, &Tail::Value(exp.cloned()), stmts);
+                self.value_carry.pop();
+                let (d, ty) = r?;
+                let t = self.bind_carried(&m, d, stmts);
                 Ok((t, ty))
             }
             syn::Expr::Block(b) if b.label.is_none() => {
                 let m = self.assigned_in_expr(e);
-                if !m.is_empty() {
-                    return self.bail(e.span(), "block used as a value must not assign outer variables");
-                }
-                let (d, ty, _) = self.block(&b.block, &Tail::Value(exp.cloned()), &[])?;
-                let t = self.fresh();
-                stmts.push(Stmt::Bind(t.clone(), d));
+                self.value_carry.push(m.clone());
+                let r = self.block(&b.block, &Tail::Value(exp.cloned()), &[]);
+                self.value_carry.pop();
+                let (d, ty, _) = r?;
+                let t = self.bind_carried(&m, d, stmts);
                 Ok((t, ty))
             }
             syn::Expr::Struct(s) => self.struct_lit(s, stmts),
@@ -840,18 +838,41 @@ impl<'g> Cx<'g> {
         }
         let cur = self.read(&pl, stmts)?;
         let mut args = format!(" {}", cur);
-        for (a, (_, pt)) in m.args.iter().zip(info.params.iter()) {
-            let (t, _) = self.expr(a, Some(pt), stmts)?;
-            args.push_str(&format!(" {}", t));
+        // the receiver, then the `&mut` parameters: all are written back from the result
+        let mut places: Vec<Place> = vec![pl.clone()];
+        for (a, (pn, pt)) in m.args.iter().zip(info.params.iter()) {
+            if info.mut_params.contains(pn) {
+                let mut inner: &syn::Expr = a;
+                loop {
+                    match inner {
+                        syn::Expr::Reference(r) => inner = &r.expr,
+                        syn::Expr::Paren(p) => inner = &p.expr,
+                        _ => break,
+                    }
+                }
+                let apl = self.place(inner, stmts)?;
+                let t = self.read(&apl, stmts)?;
+                args.push_str(&format!(" {}", t));
+                places.push(apl);
+            } else {
+                let (t, _) = self.expr(a, Some(pt), stmts)?;
+                args.push_str(&format!(" {}", t));
+            }
         }
         let applied = format!("{}{}", self.fn_lean_name(&info), args);
+        let total = places.len() + 1;
         let (caller, ok_ty) = match (&info.ret, try_mode) {
-            (Ty::Res(a, b), true) => (self.try_caller(b, info.err_state, std::slice::from_ref(&pl), m.span())?, (**a).clone()),
+            (Ty::Res(a, b), true) => (self.try_caller(b, info.err_state, &places, m.span())?, (**a).clone()),
             (Ty::Res(_, _), false) => {
-                // the caller inspects the `Result`: the receiver keeps the state the callee leaves behind (Ok or Err)
+                // the caller inspects the `Result`: the receiver (and the `&mut` arguments) keep the state the callee
+                // leaves behind (Ok or Err)
                 let t = self.fresh();
                 stmts.push(Stmt::Bind(t.clone(), Doc::atom(format!("Exec.attempt ({})", applied))));
-                self.write(&pl, format!("{}.1", t), stmts)?;
+                let n = places.len();
+                for (i, p) in places.iter().enumerate() {
+                    let comp = if n == 1 { format!("{}.1", t) } else { Self::tuple_proj(&format!("{}.1", t), i, n) };
+                    self.write(p, comp, stmts)?;
+                }
                 return Ok(Some((format!("{}.2", t), info.ret.clone())));
             }
             (_, true) => return self.bail(m.span(), "`?` on a call that does not return `Result`"),
@@ -859,8 +880,10 @@ impl<'g> Cx<'g> {
         };
         let t = self.fresh();
         stmts.push(Stmt::Bind(t.clone(), Doc::atom(format!("{} ({})", caller, applied))));
-        self.write(&pl, format!("{}.1", t), stmts)?;
-        let v = if matches!(ok_ty, Ty::Unit) { "()".to_string() } else { format!("{}.2", t) };
+        for (i, p) in places.iter().enumerate() {
+            self.write(p, Self::tuple_proj(&t, i, total), stmts)?;
+        }
+        let v = if matches!(ok_ty, Ty::Unit) { "()".to_string() } else { Self::tuple_proj(&t, total - 1, total) };
         Ok(Some((v, ok_ty)))
     }
 
@@ -1163,6 +1186,40 @@ impl<'g> Cx<'g> {
             }
             return Ok((format!("(RustSem.ReadCursor.new {})", t), Ty::Named("ReadCursor".into())));
         }
+        // `OctetsMut::with_slice(&mut buffer)` / `Octets::with_slice(slice)`: a cursor at offset 0.  The mutable cursor
+        // borrows `buffer`: whatever is written through it is written into `buffer`
+        if segs.len() >= 2 && (segs[segs.len() - 2] == "OctetsMut" || segs[segs.len() - 2] == "Octets") && last == "with_slice" && args.len() == 1 {
+            let is_mut = segs[segs.len() - 2] == "OctetsMut";
+            let mut inner: &syn::Expr = args[0];
+            let mut by_mut_ref = false;
+            loop {
+                match inner {
+                    syn::Expr::Reference(r) => {
+                        by_mut_ref = by_mut_ref || r.mutability.is_some();
+                        inner = &r.expr
+                    }
+                    syn::Expr::Paren(p) => inner = &p.expr,
+                    _ => break,
+                }
+            }
+            if is_mut {
+                if !by_mut_ref || !self.is_place(inner) {
+                    return self.bail(whole.span(), "`OctetsMut::with_slice` needs `&mut <buffer variable>`");
+                }
+                let pl = self.place(inner, stmts)?;
+                if !matches!(pl.ty(), Ty::List(ref e, _) if matches!(**e, Ty::Int(8))) {
+                    return self.bail(whole.span(), "`OctetsMut::with_slice` needs a byte buffer");
+                }
+                let cur = self.read(&pl, stmts)?;
+                self.pending_backing = Some(pl);
+                return Ok((format!("(RustSem.OctetsMut.with_slice {})", cur), Ty::Named("OctetsMut".into())));
+            }
+            let (t, ty) = self.expr(inner, None, stmts)?;
+            if !matches!(&ty, Ty::List(e, _) if matches!(**e, Ty::Int(8))) {
+                return self.bail(whole.span(), "`Octets::with_slice` needs a byte slice");
+            }
+            return Ok((format!("(RustSem.Octets.with_slice {})", t), Ty::Named("Octets".into())));
+        }
         // std::net
         if segs.len() >= 2 && (segs[segs.len() - 2] == "Ipv4Addr" || segs[segs.len() - 2] == "Ipv6Addr") && last == "from" && args.len() == 1 {
             let (t, ty) = self.expr(args[0], None, stmts)?;
@@ -1412,6 +1469,9 @@ impl<'g> Cx<'g> {
                 stmts.push(Stmt::Bind(v.clone(), Doc::atom(format!("RustSem.div_ceil {} {} {} {}", w, r, a, site))));
                 Ok((v, rt.clone()))
             }
+            (Ty::List(e, k), "last" | "first", 0) if *k != ListKind::Iter => {
+                Ok((format!("(List.{} {})", if name == "last" { "getLast?" } else { "head?" }, r), Ty::Opt(e.clone())))
+            }
             (Ty::List(_, _), "is_empty", 0) => Ok((format!("(RustSem.is_empty {})", r), Ty::Bool)),
             (Ty::List(e, _), "to_vec", 0) => Ok((r, Ty::List(e.clone(), ListKind::Vec))),
             (Ty::List(_, _), "clone" | "as_slice" | "as_ref", 0) => Ok((r, rt.clone())),
@@ -1496,6 +1556,39 @@ impl<'g> Cx<'g> {
                 }
                 Ok((format!("(List.filter (fun {} => {}) {})", lean_ident(&x), b, r), Ty::List(t.clone(), ListKind::Iter)))
             }
+            (Ty::List(t, ListKind::Iter), "map", 1) => {
+                // `iter.map(|pat| e)` with a closure whose body is a pure expression
+                let (cpat, body) = match args[0] {
+                    syn::Expr::Closure(c) if c.inputs.len() == 1 && c.capture.is_none() => (&c.inputs[0], &*c.body),
+                    o => return self.bail(o.span(), "only simple closures `|x| expr` are supported here"),
+                };
+                let mut cp: &syn::Pat = cpat;
+                while let syn::Pat::Reference(pr) = cp {
+                    cp = &pr.pat;
+                }
+                let (lp, binds) = self.pat(cp, t)?;
+                for (n, _) in &binds {
+                    self.check_local_name(n, args[0].span())?;
+                }
+                if !self.assigned_in_expr(body).is_empty() {
+                    return self.bail(args[0].span(), "closure must not assign outer variables");
+                }
+                self.push_scope(binds);
+                let mut bs: Vec<Stmt> = Vec::new();
+                let rb = self.expr(body, None, &mut bs);
+                self.pop_scope();
+                let (b, bt) = rb?;
+                if !bs.is_empty() {
+                    return self.bail(args[0].span(), "the closure of `map` must be a pure expression");
+                }
+                Ok((format!("(List.map (fun {} => {}) {})", Self::paren_pat(&lp), b, r), Ty::List(Box::new(bt), ListKind::Iter)))
+            }
+            (Ty::List(t, ListKind::Iter), "collect", 0) => match exp {
+                Some(Ty::List(te, ListKind::Vec)) if !te.has_unknown() && !Self::same_shape(te, t) => {
+                    self.bail(whole.span(), "`collect()` into a Vec of another element type")
+                }
+                _ => Ok((r, Ty::List(t.clone(), ListKind::Vec))),
+            },
             (Ty::List(_, ListKind::Iter), "count", 0) => Ok((format!("(RustSem.len {})", r), Ty::usize())),
             (Ty::List(t, ListKind::Iter), "flatten", 0) => match &**t {
                 // an iterator over `Option<T>`: its `Some` values in order
